@@ -10,141 +10,130 @@ invariant `SInv`), `Lemmas/ServerFlow.lean`.
 namespace TarpcModel.Server
 open TarpcModel TarpcModel.Server.Flow
 
-/-- **C06 (a): never early — up to the timer clamp.**  In every reachable state of every
-configuration, an execution whose abort flag is set has a reason: a `Cancel` for its request id was
-read from the transport (`cancelSeen`: an `Obs.tNext _ (.item (.cancel id _))` was observed), the
-request stream was dropped, the clock has reached the request's deadline — or the *clamp fired*:
-the request was read at clock `t0` (`StartedAt`: the op of the script that created the execution ran
-at `t0`) with a deadline more than `MAX_DEADLINE_TIMEOUT` (`clampNs`, `Gen.serverTimerClampSecs`
-seconds — one year) beyond `t0`, so that its timer was armed with the clamped timeout, and that
-timeout has run out (`Clamped t0 deadline now`: the source clamps, `t0 + clampNs < deadline` and
-`t0 + clampNs ≤ now`).  In that last case `InFlightRequests::poll_expired` aborts the handler although
-`now < deadline` may hold: the accepted price of not panicking on far-away deadlines.
-
-For every other request the expiry path never aborts a handler before its deadline: the timer is armed
-for `max (ceil_ms (now + clampTimeout (deadline - now))) wheel.elapsed`, which is `≥ deadline` unless
-the clamp applies, and the timer wheel never yields an entry before its tick
-(`DelayQ.pollExpired_not_early`). -/
+/-- **C06 (a): never early.**  In every reachable state of every configuration, an execution whose
+abort flag is set has a reason: a `Cancel` for its request id was read from the transport
+(`cancelSeen`: an `Obs.tNext _ (.item (.cancel id _))` was observed), the request stream was dropped,
+or the clock has reached the request's deadline — whatever the deadline, however far away.
+The expiry path (`InFlightRequests::poll_expired`) never aborts a handler before its deadline: the timer
+is armed for `max (ceil_ms (now + clampTimeout (deadline - now))) wheel.elapsed`, the part of the time
+until the deadline that the clamp (`MAX_DEADLINE_TIMEOUT`) cut off is kept in the entry
+(`deadline_remainder`), so that `tick + remainder ≥ deadline` throughout (`TInv.dl`); a timer that fires
+with a nonzero remainder is re-armed with (the next clamped part of) the rest (`TInv.rearm`); only a timer
+that fires with nothing left expires the request, and the timer wheel never yields an entry before its
+tick (`DelayQ.pollExpired_not_early`). -/
 theorem C06_never_early (limit : Option Nat) (respCap tcap : Nat) (coupled : Bool) (ops : List SOp)
     (c : Sys) (hc : c = ops.foldl applyOp (initSys limit respCap tcap coupled)) :
-    ∀ e ∈ c.s.execs, e.aborted = true →
-      cancelSeen e.id c.s.obs ∨ c.s.dropped = true ∨ e.deadline ≤ c.now ∨
-      ∃ t0, StartedAt (initSys limit respCap tcap coupled) ops e.rid t0 ∧ Clamped t0 e.deadline c.now := by
+    ∀ e ∈ c.s.execs, e.aborted = true → cancelSeen e.id c.s.obs ∨ c.s.dropped = true ∨ e.deadline ≤ c.now := by
   subst hc
   intro e he ha
-  obtain ⟨born, hinv, hlink⟩ := sinv_reach true limit respCap tcap coupled ops
+  have hinv := sinv_reach true limit respCap tcap coupled ops
   have hns := ns_reach limit respCap tcap coupled ops
-  rcases hinv.why rfl e he ha with h | h | h | h | h
+  rcases hinv.why rfl e he ha with h | h
   · rw [hns] at h; cases h
-  · exact Or.inl h
-  · exact Or.inr (Or.inl h)
-  · exact Or.inr (Or.inr (Or.inl h))
-  · exact Or.inr (Or.inr (Or.inr ⟨born e.rid, hlink e.rid (hinv.t.execRid e he), h⟩))
-
-/-- **C06 (a) for deadlines within the clamp: never early, outright.**  If the request's deadline was
-at most `clampNs` (one year) away when the request was read — at whatever clock `t0` that was — an
-aborted execution has one of the three classical reasons; in particular the deadline has passed unless a
-`Cancel` was read or the stream was dropped. -/
-theorem C06_never_early_within_clamp (limit : Option Nat) (respCap tcap : Nat) (coupled : Bool) (ops : List SOp)
-    (c : Sys) (hc : c = ops.foldl applyOp (initSys limit respCap tcap coupled)) (e : Exec) (he : e ∈ c.s.execs)
-    (hnear : ∀ t0, StartedAt (initSys limit respCap tcap coupled) ops e.rid t0 → e.deadline ≤ t0 + clampNs)
-    (ha : e.aborted = true) :
-    cancelSeen e.id c.s.obs ∨ c.s.dropped = true ∨ e.deadline ≤ c.now := by
-  rcases C06_never_early limit respCap tcap coupled ops c hc e he ha with h | h | h | ⟨t0, hs, hcl⟩
-  · exact Or.inl h
-  · exact Or.inr (Or.inl h)
-  · exact Or.inr (Or.inr h)
-  · exact absurd (hnear t0 hs) (Nat.not_le.mpr hcl.2.1)
-
-/-- … and if the source does not clamp at all (`Gen.serverTimerClampSecs = 0`) the clamp disjunct is
-empty. -/
-theorem C06_never_early_unclamped (hno : Gen.serverTimerClampSecs = 0)
-    (limit : Option Nat) (respCap tcap : Nat) (coupled : Bool) (ops : List SOp)
-    (c : Sys) (hc : c = ops.foldl applyOp (initSys limit respCap tcap coupled)) :
-    ∀ e ∈ c.s.execs, e.aborted = true → cancelSeen e.id c.s.obs ∨ c.s.dropped = true ∨ e.deadline ≤ c.now := by
-  intro e he ha
-  rcases C06_never_early limit respCap tcap coupled ops c hc e he ha with h | h | h | ⟨t0, hs, hcl⟩
-  · exact Or.inl h
-  · exact Or.inr (Or.inl h)
-  · exact Or.inr (Or.inr h)
-  · exact absurd hno hcl.1
+  · exact h
 
 /-- **C06 (a), observation form.**  From any reachable state, if polling execution `vid` at the current
 clock reports `handler vid dropped t` (the `Abortable` wrapper found the abort flag set and dropped
 the handler), then `t` is the current clock and the abort has a reason: a `Cancel` for the request's id
-was read, the request stream was dropped, `t ≥ deadline` — or the clamp fired (see `C06_never_early`). -/
+was read, the request stream was dropped, or `t ≥ deadline`. -/
 theorem C06_never_early_obs (limit : Option Nat) (respCap tcap : Nat) (coupled : Bool) (ops : List SOp)
     (c : Sys) (hc : c = ops.foldl applyOp (initSys limit respCap tcap coupled)) (vid v t : Nat)
     (h : Obs.handler v .dropped t ∈ (pollExec c.s vid c.now).obs) (hnew : Obs.handler v .dropped t ∉ c.s.obs) :
     v = vid ∧ t = c.now ∧ ∃ e, getExecVis c.s vid = some e ∧
-      (cancelSeen e.id c.s.obs ∨ c.s.dropped = true ∨ e.deadline ≤ t ∨
-        ∃ t0, StartedAt (initSys limit respCap tcap coupled) ops e.rid t0 ∧ Clamped t0 e.deadline t) := by
+      (cancelSeen e.id c.s.obs ∨ c.s.dropped = true ∨ e.deadline ≤ t) := by
   rcases pollExec_dropped_obs c.s vid c.now v t h with h' | ⟨hv, ht, e, hg, hab, hmem⟩
   · exact absurd h' hnew
   · exact ⟨hv, ht, e, hg, ht ▸ C06_never_early limit respCap tcap coupled ops c hc e hmem hab⟩
 
 /-- The one-step form for the expiry path alone: from a reachable state, every execution that
-`poll_expired` at the current clock newly aborts has `deadline ≤ now` — or its timer was armed with the
-clamped timeout at the clock `born rid` at which the script created it, and the clamp has run out. -/
+`poll_expired` at the current clock newly aborts has `deadline ≤ now`. -/
 theorem C06_expiry_never_early (limit : Option Nat) (respCap tcap : Nat) (coupled : Bool) (ops : List SOp)
     (c : Sys) (hc : c = ops.foldl applyOp (initSys limit respCap tcap coupled)) :
-    ∃ born : Nat → Nat,
-      (∀ rid, rid < c.s.execs.length → StartedAt (initSys limit respCap tcap coupled) ops rid (born rid)) ∧
-      (ExecsAb none c.s.execs (pollExpired c.s c.now).1.execs ∨
-       ∃ r, ExecsAb (some r) c.s.execs (pollExpired c.s c.now).1.execs ∧
-        ∀ ex ∈ c.s.execs, ex.rid = r → ex.deadline ≤ c.now ∨ Clamped (born ex.rid) ex.deadline c.now) := by
+    ExecsAb none c.s.execs (pollExpired c.s c.now).1.execs ∨
+    ∃ r, ExecsAb (some r) c.s.execs (pollExpired c.s c.now).1.execs ∧
+      ∀ ex ∈ c.s.execs, ex.rid = r → ex.deadline ≤ c.now := by
   subst hc
-  obtain ⟨born, hinv, hlink⟩ := sinv_reach true limit respCap tcap coupled ops
-  exact ⟨born, hlink, hinv.t.expire_ab⟩
+  exact (sinv_reach true limit respCap tcap coupled ops).t.expire_ab
 
-/-- **C06 (b): an expiry touches nothing else.**  In any state, `poll_expired` either leaves the
-in-flight table and all executions alone, or it reports an expiration, removes exactly the table
-entries with the expired id and changes only executions with the rid of the entry it found (whose
-`rid` it keeps and whose `aborted` flag it never clears). -/
+/-- **The deadline invariant behind (a).**  In every reachable state, for every tracked request: the tick
+(ms) of its armed timer together with the part of the time until the deadline that has not been armed yet
+(`remainder`, ns; nonzero only for deadlines further away than the clamp) reaches the deadline of the
+execution it guards. -/
+theorem C06_timer_reaches_deadline (limit : Option Nat) (respCap tcap : Nat) (coupled : Bool) (ops : List SOp)
+    (c : Sys) (hc : c = ops.foldl applyOp (initSys limit respCap tcap coupled)) :
+    ∀ en ∈ c.s.inflight, ∀ k ∈ c.s.timers.cores, k.1 = en.timerKey → ∀ ex ∈ c.s.execs, ex.rid = en.rid →
+      ex.deadline ≤ k.2.2 * nsPerMs + en.remainder := by
+  subst hc
+  intro en hen k hk hkey ex hex hr
+  exact ((sinv_reach true limit respCap tcap coupled ops).t.dl en hen k hk hkey ex hex hr).1
+
+/-- **C06 (b): an expiry touches nothing else.**  In any state, `poll_expired` either leaves the tracked
+requests (the `(id, rid)` pairs of the in-flight table, in order — a re-arm changes an entry's timer key and
+remainder only) and all executions alone and reports no expiration for a tracked id, or it reports an
+expiration, removes exactly the table entries with the expired id and changes only executions with the rid
+of the entry it found (whose `rid` it keeps and whose `aborted` flag it never clears). -/
 theorem C06_others_unaffected (s : St) (now : Nat) :
-    ((pollExpired s now).1.inflight = s.inflight ∧ (pollExpired s now).1.execs = s.execs) ∨
-    ∃ (e : DqEntry) (en : SEntry), findEntry s e.val = some en ∧ (pollExpired s now).2 = .ready ∧
-      (pollExpired s now).1.inflight = s.inflight.filter (·.id != e.val) ∧
-      (∀ en' ∈ s.inflight, en'.id ≠ en.id → en' ∈ (pollExpired s now).1.inflight) ∧
+    ((pollExpired s now).1.inflight.map SEntry.ir = s.inflight.map SEntry.ir ∧ (pollExpired s now).1.execs = s.execs) ∨
+    ∃ (id : Nat) (en : SEntry), findEntry s id = some en ∧ (pollExpired s now).2 = .ready ∧
+      (pollExpired s now).1.inflight.map SEntry.ir = (s.inflight.filter (·.id != id)).map SEntry.ir ∧
+      (∀ en' ∈ s.inflight, en'.id ≠ en.id → en'.ir ∈ (pollExpired s now).1.inflight.map SEntry.ir) ∧
       ∃ g, (pollExpired s now).1.execs = s.execs.map g ∧ (∀ x, x.rid ≠ en.rid → g x = x) ∧
         (∀ x, (g x).rid = x.rid) ∧ (∀ x, x.aborted = true → (g x).aborted = true) := by
-  rcases pollExpired_touches s now with h | ⟨e, en, hf, hr, hi, g, hg, hm⟩
-  · exact Or.inl h
-  · refine Or.inr ⟨e, en, hf, hr, hi, ?_, g, hg, hm.other, hm.rid, hm.keep⟩
+  have h := pollExpired_touches s now
+  revert h; generalize pollExpired s now = p; intro h
+  obtain ⟨s', r⟩ := p
+  dsimp only at h ⊢
+  cases h with
+  | same _ hi he hr => exact Or.inl ⟨hi, he⟩
+  | orphan id hi he hf => exact Or.inl ⟨hi, he⟩
+  | expired id en hf hi g he hm =>
+    refine Or.inr ⟨id, en, hf, rfl, hi, ?_, g, he, hm.other, hm.rid, hm.keep⟩
     intro en' hen' hne
     rw [hi]
     have := (findEntry_some hf).2
+    refine List.mem_map.mpr ⟨en', ?_, rfl⟩
     simp only [List.mem_filter, bne_iff_ne, ne_eq]
     exact ⟨hen', fun h => hne (h.trans this.symm)⟩
 
 /-- The full "aborts at the deadline" statement: a channel poll that goes idle (`Pending` / end of
-stream) at clock `now` has removed every tracked entry whose timer tick has passed and aborted its
-execution. -/
+stream) at clock `now` has removed every tracked entry whose timer tick has passed with nothing left to
+arm (`remainder = 0`) and aborted its execution. -/
 def C06AbortsAtDeadlineStatement : Prop :=
   ∀ (limit : Option Nat) (respCap tcap : Nat) (coupled : Bool) (ops : List SOp) (fuel : Nat),
     let c := ops.foldl applyOp (initSys limit respCap tcap coupled)
     let p := basePollNext fuel c.s c.now
     (p.2 = .pending ∨ p.2 = .none) →
     ∀ en ∈ c.s.inflight, ∀ k ∈ c.s.timers.cores, k.1 = en.timerKey → k.2.2 * nsPerMs ≤ c.now →
-      en ∉ p.1.inflight ∧ ∀ ex ∈ p.1.execs, ex.rid = en.rid → ex.aborted = true
+      en.remainder = 0 →
+      (∀ en' ∈ p.1.inflight, en'.id ≠ en.id) ∧ ∀ ex ∈ p.1.execs, ex.rid = en.rid → ex.aborted = true
 
 /-- **C06 (c), partial.**  What is proved: when the channel's `poll_next` (from any state) goes idle at
 clock `now`, the `poll_expired` call of its last iteration did *not* report an expiration — the timer
-queue was empty or `DelayQueue::poll_expired(now)` returned `Pending`/`None` — and nothing touched the
-table, the timers or the executions afterwards: all expirations the queue is willing to yield at `now`
-are drained before the channel goes idle.
+queue was empty, or the last iteration of `poll_expired`'s own loop, from a state `s2` reached by re-arming
+timers only, got `Pending`/`None` from `DelayQueue::poll_expired(now)` (or its `insert` panicked) — and
+nothing touched the table, the timers or the executions afterwards: all expirations the queue is willing to
+yield at `now` are drained before the channel goes idle.
 Missing for `C06AbortsAtDeadlineStatement`: *completeness* of the timer-wheel emulation (that
 `DelayQ.pollExpired q now` yields an entry whenever one with `whenMs * nsPerMs ≤ now` is queued),
 which needs the two-sided wheel invariants (slot strictness, `delay` = next expiration, adequacy of
 `wheelFuel`); `Lemmas/DelayQFacts.lean` only has the one-sided invariant needed for never-early. -/
 theorem C06_aborts_at_deadline_partial (s : St) (now fuel : Nat)
     (h : (basePollNext fuel s now).2 = .pending ∨ (basePollNext fuel s now).2 = .none) :
-    ∃ s1, (s1.timers.isEmpty = true ∨ ∀ e, (s1.timers.pollExpired now).2 ≠ .expired e) ∧
+    ∃ s1, (s1.timers.isEmpty = true ∨ ∃ s2, (pollExpired s1 now).1 = (expireStep s2 now).1 ∧
+        ((∀ e, (s2.timers.pollExpired now).2 ≠ .expired e) ∨ (expireStep s2 now).1.poisoned = true)) ∧
       (basePollNext fuel s now).1.timers = (pollExpired s1 now).1.timers ∧
       (basePollNext fuel s now).1.inflight = (pollExpired s1 now).1.inflight ∧
       (basePollNext fuel s now).1.execs = (pollExpired s1 now).1.execs := by
   obtain ⟨s1, h1, h2, h3, h4⟩ := basePollNext_idle now fuel s h
   exact ⟨s1, pollExpired_not_ready h1, h2, h3, h4⟩
+
+/-- **The loop of `poll_expired` never runs out of fuel** (from any state): every `continue` re-arms a
+timer, which uses up one of the finitely many re-arms the entry's remainder allows (`rearmSteps`); the call
+ends in an iteration that returns, and no `spin` is recorded. -/
+theorem C06_poll_expired_terminates (s : St) (now : Nat) (hne : s.timers.isEmpty = false) :
+    (∃ s2 r, (expireStep s2 now).2 = some r ∧ pollExpired s now = ((expireStep s2 now).1, r)) ∧
+    (hasSpin s.obs = false → hasSpin (pollExpired s now).1.obs = false) :=
+  ⟨pollExpired_last s now hne, fun h => NS_pollExpired now h⟩
 
 /-- **C06 (d): the limiter stall (known finding).**  With `MaxRequests` at its limit (`limit = some 1`)
 on a transport whose readiness is independent of flushing and currently closed, a poll of the request
@@ -186,18 +175,29 @@ example :
     c.s.dropped = false := by
   decide
 
-/-- **The clamp disjunct is inhabited (model-level witness).**  A request read at clock 0 with a deadline
-twice the clamp away: its timer is armed with the clamp (one year); once that has passed, a poll of the request
-stream aborts the handler and forgets the request although the deadline is as far ahead again — no `Cancel` was
-read and the stream is not dropped.  (`tarpc/src/server/in_flight_requests.rs`: `start_request` arms
-`deadline.time_until().min(MAX_DEADLINE_TIMEOUT)`, `poll_expired` aborts whatever expires.) -/
-theorem C06_clamp_fires_witness :
-    let c := [SOp.injectReq 1 (2 * Gen.serverTimerClampSecs * 1000000000) ⟨0, .given 0, false⟩ 0, .pollServer, .pollExec 0,
-      .advance (Gen.serverTimerClampSecs * 1000000000), .pollServer].foldl applyOp (initSys none 1 1 true)
-    c.now = Gen.serverTimerClampSecs * 1000000000 ∧
-    c.s.execs.map (fun e => (e.deadline, e.aborted)) = [(2 * Gen.serverTimerClampSecs * 1000000000, true)] ∧ c.s.inflight = [] ∧
-    c.s.obs.all (fun o => match o with | .tNext _ (.item (.cancel _ _)) => false | _ => true) = true ∧
-    c.s.dropped = false ∧ c.s.poisoned = false := by
+/-- **Far deadlines are enforced at the deadline (model-level witness).**  A request read at clock 0 with a
+deadline twice the clamp away: its timer is armed with the clamp (one year) and re-armed when that fires.
+One clamp later — and again one nanosecond before the deadline — the handler is still running and the
+request still tracked (`remainder` paid down to 0 by the re-arm); at the deadline a poll of the request
+stream aborts the handler and forgets the request.  (`tarpc/src/server/in_flight_requests.rs`:
+`start_request` arms `deadline.time_until().min(MAX_DEADLINE_TIMEOUT)` and keeps the rest in
+`deadline_remainder`; `poll_expired` re-arms while the remainder is nonzero.  The same script replays on the
+real code with the same outcome.) -/
+theorem C06_far_deadline_witness :
+    let D := 2 * Gen.serverTimerClampSecs * 1000000000
+    let ops1 := [SOp.injectReq 1 D ⟨0, .given 0, false⟩ 0, .pollServer, .pollExec 0,
+      .advance (Gen.serverTimerClampSecs * 1000000000), .pollServer, .pollExec 0]
+    let c1 := ops1.foldl applyOp (initSys none 1 1 true)
+    let c2 := [SOp.advance (Gen.serverTimerClampSecs * 1000000000 - 1), .pollServer, .pollExec 0].foldl applyOp c1
+    let c3 := [SOp.advance 1, .pollServer, .pollExec 0].foldl applyOp c2
+    (c1.s.execs.map (fun e => (e.deadline, e.aborted, e.phase)) = [(D, false, .running)] ∧
+      c1.s.inflight = [{ id := 1, timerKey := 1, rid := 0, remainder := 0 }]) ∧
+    (c2.now = D - 1 ∧ c2.s.execs.map (fun e => (e.deadline, e.aborted, e.phase)) = [(D, false, .running)] ∧
+      c2.s.inflight.length = 1) ∧
+    (c3.now = D ∧ c3.s.execs.map (fun e => (e.deadline, e.aborted, e.phase)) = [(D, true, .done)] ∧
+      c3.s.inflight = [] ∧ c3.s.timers.len = 0 ∧
+      c3.s.obs.all (fun o => match o with | .tNext _ (.item (.cancel _ _)) => false | _ => true) = true ∧
+      c3.s.dropped = false ∧ c3.s.poisoned = false) := by
   decide
 
 end TarpcModel.Server
